@@ -275,6 +275,7 @@ def prove_extend(S, explicit_offsets, scenario=None):
         offs = st.get('offsets') or st.get('offsets_returned')
         # ---------------- frame: other unmodified
         I.oblige("%s/frame/other-unmodified" % tag, z3.BoolVal(all(oth_after[k_] is fo[k_] for k_ in fo)), 'frame')
+        I.oblige("%s/frame/identity-map-of-the-caller-unmodified" % tag, z3.BoolVal(not I.mutated_in_place(m)), 'frame')
         if explicit_offsets:
             I.oblige("%s/frame/type-tables-untouched-with-explicit-offsets" % tag, z3.BoolVal(all(new[t] is f[t] for t in TABLES)), 'frame')
         # ---------------- atoms
